@@ -32,6 +32,7 @@ declare -A PROP=(
  ["open/close PullPositions lists positions"]="C14"
  ["wrap ends a call whose context is already done"]="C13"
  ["electric models no longer share one default random"]="C11"
+ ["wrap stream operations report the call's cancellation"]="C13"
 )
 git -C /repo log --format='%h %s' | grep ' fix: ' | while read -r h subj; do
   prop=""
